@@ -9,6 +9,7 @@ use koto_runtime::{
     prelude::*, ErrorKind, IsIterable, KotoAccess, KotoCopy, KotoFile, KotoObject, KotoRead, KotoType,
     KotoVm, KotoVmSettings, KotoWrite, Ptr, Result as KResult,
 };
+use koto_runtime::derive::{koto_get, koto_get_fallback, koto_get_override, koto_impl, koto_method, koto_set, koto_set_fallback, koto_set_override};
 use kvh::{Args, Driver, Report, Rng};
 use serde::{Deserialize, Serialize};
 use serde_json::json;
@@ -265,11 +266,48 @@ impl HostD {
     }
 }
 
+/// A host object whose `KotoAccess` comes from `#[koto_impl]` (crates/derive). The tables are fixed
+/// by the Rust types `Dv0..Dv3` below: methods m1 (alias m1b), getters g1 (alias g1b), setters g1, s1;
+/// `kind` bit0: has `#[koto_get_fallback]`/`#[koto_set_fallback]`, bit1: has the two overrides; which
+/// keys those functions answer is chosen per instance.
+#[derive(Clone, Debug, PartialEq, Eq, Serialize, Deserialize)]
+struct DerivedD {
+    name: usize,
+    kind: u8,
+    ov: Vec<usize>,
+    fb: Vec<usize>,
+    sov: Vec<usize>,
+    sfb: Vec<usize>,
+}
+const DV_METHODS: [(usize, usize); 2] = [(5, 1), (6, 1)];
+const DV_GETTERS: [(usize, usize); 2] = [(7, 1), (8, 1)];
+const DV_SETTERS: [(usize, usize); 2] = [(7, 1), (9, 2)];
+impl DerivedD {
+    fn sexp(&self) -> String {
+        let pairs = |xs: &[(usize, usize)]| xs.iter().map(|(k, f)| format!(" ({} {})", k, f)).collect::<String>();
+        let opt = |on: bool, ks: &[usize]| {
+            if on { format!("({})", ks.iter().map(|k| k.to_string()).collect::<Vec<_>>().join(" ")) } else { "-".to_string() }
+        };
+        format!(
+            "(dv {} (methods{}) (getters{}) (setters{}) {} {} {} {})",
+            self.name,
+            pairs(&DV_METHODS),
+            pairs(&DV_GETTERS),
+            pairs(&DV_SETTERS),
+            opt(self.kind & 2 != 0, &self.ov),
+            opt(self.kind & 1 != 0, &self.fb),
+            opt(self.kind & 2 != 0, &self.sov),
+            opt(self.kind & 1 != 0, &self.sfb)
+        )
+    }
+}
+
 #[derive(Clone, Debug, PartialEq, Eq, Serialize, Deserialize)]
 enum Opd {
     Prim(usize, PrimK), // variable id, kind
     Map(Vec<Layer>),    // top, base¹, base², …
     Host(HostD),
+    Derived(DerivedD),
 }
 impl Opd {
     fn sexp(&self) -> String {
@@ -287,6 +325,7 @@ impl Opd {
                 },
                 h.imp.iter().map(|(m, b)| format!(" ({} {})", m, b.sexp())).collect::<String>()
             ),
+            Opd::Derived(d) => d.sexp(),
         }
     }
     fn var(&self) -> String {
@@ -294,6 +333,7 @@ impl Opd {
             Opd::Prim(v, _) => format!("n{}", v),
             Opd::Map(ls) => format!("n{}", ls[0].name),
             Opd::Host(h) => format!("n{}", h.name),
+            Opd::Derived(d) => format!("n{}", d.name),
         }
     }
     fn av(&self) -> String {
@@ -301,6 +341,7 @@ impl Opd {
             Opd::Prim(_, k) => k.av().to_string(),
             Opd::Map(ls) => format!("m:n{}", ls[0].name),
             Opd::Host(h) => format!("h:n{}#0", h.name),
+            Opd::Derived(d) => format!("h:n{}#0", d.name),
         }
     }
     fn top_meta(&self) -> Option<&Meta> {
@@ -395,7 +436,7 @@ fn metakey_info(name: &str) -> (&'static str, &'static str) {
     METAKEYS.iter().find(|(n, _, _)| *n == name).map(|(_, s, p)| (*s, *p)).unwrap_or_else(|| panic!("metakey {}", name))
 }
 
-const KEY_NAMES: [&str; 5] = ["ka", "kb", "kf", "keys", "to_tuple"];
+const KEY_NAMES: [&str; 11] = ["ka", "kb", "kf", "keys", "to_tuple", "m1", "m1b", "g1", "g1b", "s1", "zz"];
 const KEY_FN: usize = 2;
 const KEY_MAPMOD: usize = 3;
 
@@ -429,27 +470,21 @@ struct Case {
     b: Option<Opd>,
 }
 
-/// Set to `true` once requests/C17-fix-1.diff (guard `o.is_same_instance(o2)`) is applied to /repo:
-/// the model entry that mirrors the code is then `compoundIntended` (Model/Meta.lean).
-const COMPOUND_GUARD_FIXED: bool = false;
-
 impl Case {
     fn request(&self) -> String {
-        let a = self.a.sexp();
+        let a = match (&self.a, &self.op) {
+            (Opd::Derived(_), Op::Access(_) | Op::Method(_) | Op::AccessAssign(_)) => self.a.sexp(),
+            // every other operation of a #[koto_impl] object is a `KotoObject` trait default
+            (Opd::Derived(d), _) => format!("(h {} 0 ni)", d.name),
+            _ => self.a.sexp(),
+        };
         let b = self.b.as_ref().map(|b| b.sexp()).unwrap_or_default();
         let idx = |n: bool| if n { "num0" } else { "str" };
         match &self.op {
             Op::Arith(i) => format!("arith {} {} {}", ARITH[*i].0, a, b),
-            Op::Compound(i, same) if COMPOUND_GUARD_FIXED => {
-                let rhs = if *same { a.clone() } else { b };
-                format!("compound-intended {} {} {} {}", ARITH[*i].0, a, rhs, *same as u8)
-            }
             Op::Compound(i, same) => {
-                if *same {
-                    format!("compound {} {} {}", ARITH[*i].0, a, a)
-                } else {
-                    format!("compound {} {} {}", ARITH[*i].0, a, b)
-                }
+                let rhs = if *same { a.clone() } else { b };
+                format!("compound {} {} {} {}", ARITH[*i].0, a, rhs, *same as u8)
             }
             Op::Cmp(i) => format!("cmp {} {} {}", CMP[*i].0, a, b),
             Op::Neg => format!("neg {}", a),
@@ -465,6 +500,9 @@ impl Case {
             Op::Debug => format!("debug {}", a),
             Op::Index(n) => format!("index {} {}", a, idx(*n)),
             Op::IndexAssign(n) => format!("indexassign {} {}", a, idx(*n)),
+            Op::Access(k) if matches!(self.a, Opd::Derived(_)) => format!("daccess {} {}", a, k),
+            Op::Method(k) if matches!(self.a, Opd::Derived(_)) => format!("dmethod {} {}", a, k),
+            Op::AccessAssign(k) if matches!(self.a, Opd::Derived(_)) => format!("daccessassign {} {}", a, k),
             Op::Access(k) => format!("access {} {}", a, k),
             Op::Method(k) => format!("method {} {}", a, k),
             Op::AccessAssign(k) => format!("accessassign {} {}", a, k),
@@ -639,7 +677,7 @@ fn render_layer(l: &Layer, base: Option<usize>, protos: &mut Vec<usize>, out: &m
 fn render_opd(o: &Opd, protos: &mut Vec<usize>, out: &mut String) {
     match o {
         Opd::Prim(v, k) => out.push_str(&format!("n{} = {}\n", v, k.literal())),
-        Opd::Host(_) => {} // inserted into the prelude from Rust
+        Opd::Host(_) | Opd::Derived(_) => {} // inserted into the prelude from Rust
         Opd::Map(ls) => {
             for i in (0..ls.len()).rev() {
                 let base = if i + 1 < ls.len() { Some(ls[i + 1].name) } else { None };
@@ -1104,6 +1142,140 @@ fn make_host(h: &HostD) -> KObject {
     }
 }
 
+// ---- host objects defined with #[koto_impl] -----------------------------------------------------
+
+#[derive(Clone)]
+struct DvData {
+    name: usize,
+    ov: Vec<String>,
+    fb: Vec<String>,
+    sov: Vec<String>,
+    sfb: Vec<String>,
+}
+impl DvData {
+    fn ev(&self, f: &str, args: &[&KValue]) {
+        push_trace(format!(
+            "n{}.dv.{} self=h:n{}#0 args=[{}]",
+            self.name,
+            f,
+            self.name,
+            args.iter().map(|a| desc(a)).collect::<Vec<_>>().join(",")
+        ));
+    }
+}
+
+macro_rules! derived_type {
+    ($name:ident; $($extra:tt)*) => {
+        #[derive(Clone)]
+        struct $name(DvData);
+        impl KotoType for $name {
+            fn type_static() -> &'static str {
+                "Host"
+            }
+            fn type_string(&self) -> KString {
+                format!("Host:n{}#0", self.0.name).into()
+            }
+        }
+        impl KotoCopy for $name {
+            fn copy(&self) -> KObject {
+                KObject::from(self.clone())
+            }
+        }
+        impl KotoObject for $name {}
+
+        #[koto_impl(runtime = koto_runtime)]
+        impl $name {
+            #[koto_method(alias = "m1b")]
+            fn m1(&self, args: &[KValue]) -> KValue {
+                let refs: Vec<&KValue> = args.iter().collect();
+                self.0.ev("method1", &refs);
+                77.into()
+            }
+            #[koto_get(alias = "g1b")]
+            fn g1(&self) -> KValue {
+                self.0.ev("getter1", &[]);
+                88.into()
+            }
+            #[koto_set]
+            fn set_g1(&mut self, value: &KValue) {
+                self.0.ev("setter1", &[value]);
+            }
+            #[koto_set(name = "s1")]
+            fn put_s1(&mut self, value: &KValue) {
+                self.0.ev("setter2", &[value]);
+            }
+            $($extra)*
+        }
+    };
+}
+
+derived_type!(Dv0;);
+derived_type!(Dv1;
+    #[koto_get_fallback]
+    fn fallback(&self, key: &KString) -> Option<KValue> {
+        self.0.ev("get_fallback", &[&KValue::Str(key.clone())]);
+        if self.0.fb.iter().any(|k| k == key.as_str()) { Some(66.into()) } else { None }
+    }
+    #[koto_set_fallback]
+    fn set_fallback(&mut self, key: &KString, value: &KValue) -> KResult<()> {
+        self.0.ev("set_fallback", &[&KValue::Str(key.clone()), value]);
+        if self.0.sfb.iter().any(|k| k == key.as_str()) {
+            Ok(())
+        } else {
+            Err(koto_runtime::Error::new(ErrorKind::StringError("hboom".into())))
+        }
+    }
+);
+derived_type!(Dv2;
+    #[koto_get_override]
+    fn get_override(&self, key: &KString) -> Option<KValue> {
+        self.0.ev("get_override", &[&KValue::Str(key.clone())]);
+        if self.0.ov.iter().any(|k| k == key.as_str()) { Some(55.into()) } else { None }
+    }
+    #[koto_set_override]
+    fn set_override(&mut self, key: &KString, value: &KValue) -> bool {
+        self.0.ev("set_override", &[&KValue::Str(key.clone()), value]);
+        self.0.sov.iter().any(|k| k == key.as_str())
+    }
+);
+derived_type!(Dv3;
+    #[koto_get_fallback]
+    fn fallback(&self, key: &KString) -> Option<KValue> {
+        self.0.ev("get_fallback", &[&KValue::Str(key.clone())]);
+        if self.0.fb.iter().any(|k| k == key.as_str()) { Some(66.into()) } else { None }
+    }
+    #[koto_set_fallback]
+    fn set_fallback(&mut self, key: &KString, value: &KValue) -> KResult<()> {
+        self.0.ev("set_fallback", &[&KValue::Str(key.clone()), value]);
+        if self.0.sfb.iter().any(|k| k == key.as_str()) {
+            Ok(())
+        } else {
+            Err(koto_runtime::Error::new(ErrorKind::StringError("hboom".into())))
+        }
+    }
+    #[koto_get_override]
+    fn get_override(&self, key: &KString) -> Option<KValue> {
+        self.0.ev("get_override", &[&KValue::Str(key.clone())]);
+        if self.0.ov.iter().any(|k| k == key.as_str()) { Some(55.into()) } else { None }
+    }
+    #[koto_set_override]
+    fn set_override(&mut self, key: &KString, value: &KValue) -> bool {
+        self.0.ev("set_override", &[&KValue::Str(key.clone()), value]);
+        self.0.sov.iter().any(|k| k == key.as_str())
+    }
+);
+
+fn make_derived(d: &DerivedD) -> KObject {
+    let names = |ks: &[usize]| ks.iter().map(|k| KEY_NAMES[*k].to_string()).collect::<Vec<_>>();
+    let data = DvData { name: d.name, ov: names(&d.ov), fb: names(&d.fb), sov: names(&d.sov), sfb: names(&d.sfb) };
+    match d.kind & 3 {
+        0 => KObject::from(Dv0(data)),
+        1 => KObject::from(Dv1(data)),
+        2 => KObject::from(Dv2(data)),
+        _ => KObject::from(Dv3(data)),
+    }
+}
+
 /// captured stdout/stderr of the runtime
 #[derive(Clone, Debug, Default)]
 struct Capture;
@@ -1154,6 +1326,8 @@ fn classify(e: &koto_runtime::Error) -> String {
                 "E:iter:type".into()
             } else if s.starts_with("iterator.reversed: the provided iterator isn't bidirectional") {
                 "E:notrev".into()
+            } else if s.starts_with("unexpected key: ") {
+                "E:unexpectedkey".into()
             } else if s.contains("not found in") {
                 "E:notfound".into()
             } else if s.starts_with("index out of bounds") || s.starts_with("invalid index") {
@@ -1271,6 +1445,9 @@ fn run_case(c: &Case, script: &str) -> Result<Outcome, String> {
             for o in [Some(&c.a), c.b.as_ref()].into_iter().flatten() {
                 if let Opd::Host(h) = o {
                     prelude.insert(format!("n{}", h.name).as_str(), make_host(h));
+                }
+                if let Opd::Derived(d) = o {
+                    prelude.insert(format!("n{}", d.name).as_str(), make_derived(d));
                 }
             }
         }
@@ -1553,6 +1730,46 @@ fn d_check(c: &Case, o: &Outcome) -> Vec<(String, String)> {
                 }
             }
         }
+        (Op::Access(k), _) if matches!(a, Opd::Derived(_)) => {
+            // documented order of #[koto_impl]: override, methods / getters, fallback, else not found
+            if let Opd::Derived(d) = a {
+                let want = if d.kind & 2 != 0 && d.ov.contains(k) {
+                    "ok i55"
+                } else if DV_METHODS.iter().any(|(x, _)| x == k) {
+                    "ok native"
+                } else if DV_GETTERS.iter().any(|(x, _)| x == k) {
+                    "ok i88"
+                } else if d.kind & 1 != 0 && d.fb.contains(k) {
+                    "ok i66"
+                } else {
+                    "E:notfound"
+                };
+                if o.result != want {
+                    fail("derived_access_order", format!("expected `{}`", want));
+                }
+            }
+        }
+        (Op::Method(k), _) if matches!(a, Opd::Derived(_)) => {
+            if let Opd::Derived(d) = a {
+                let shadowed = d.kind & 2 != 0 && d.ov.contains(k);
+                if !shadowed && DV_METHODS.iter().any(|(x, _)| x == k) {
+                    let want = format!("n{}.dv.method1 self={} args=[i7]", d.name, aav);
+                    if o.trace.last() != Some(&want) || o.result != "ok i77" {
+                        fail("derived_method_instance", format!("expected the method to run as `{}` and return 77", want));
+                    }
+                }
+            }
+        }
+        (Op::AccessAssign(k), _) if matches!(a, Opd::Derived(_)) => {
+            if let Opd::Derived(d) = a {
+                let handled = (d.kind & 2 != 0 && d.sov.contains(k))
+                    || DV_SETTERS.iter().any(|(x, _)| x == k)
+                    || (d.kind & 1 != 0 && d.sfb.contains(k));
+                if handled != o.result.starts_with("ok") {
+                    fail("derived_assign", "assignment succeeds exactly when an override, setter or fallback takes the key".into());
+                }
+            }
+        }
         (Op::Access(k), _) => {
             if let Opd::Map(ls) = a {
                 if ls[0].src.meta().is_some_and(|m| m.get("Access").is_some()) {
@@ -1605,6 +1822,7 @@ fn d_check(c: &Case, o: &Outcome) -> Vec<(String, String)> {
 fn b_name(o: &Opd) -> usize {
     match o {
         Opd::Host(h) => h.name,
+        Opd::Derived(d) => d.name,
         Opd::Map(ls) => ls[0].name,
         Opd::Prim(v, _) => *v,
     }
@@ -1744,6 +1962,7 @@ impl Ctx {
                 }
             }
             Opd::Host(h) => if h.imp.is_empty() { "host:defaults".into() } else { "host".to_string() },
+            Opd::Derived(d) => format!("host:koto_impl(kind={})", d.kind),
         };
         self.rep.bump(&format!("lhs={}", kind(&c.a)));
         if let Some(b) = &c.b {
@@ -2116,6 +2335,32 @@ fn gen_unary_grid(cx: &mut Ctx) {
     cx.push(Case { op: Op::For, a: obj(0, &[], &[("Next", MV::NonCallable)]), b: None });
     cx.push(Case { op: Op::ToList, a: obj(0, &[], &[("Next", MV::NonCallable)]), b: None });
     cx.push(Case { op: Op::For, a: obj(0, &[], &[("Next", MV::Chain(vec![20], Some(Beh::Ret(RV::Null))))]), b: None });
+}
+
+/// host objects with derived access tables: every kind × which keys the override / fallback answer × key
+fn gen_derived_grid(cx: &mut Ctx) {
+    let keys = [5usize, 6, 7, 8, 9, 10, 4];
+    let sets: [Vec<usize>; 5] = [vec![], vec![5], vec![7, 10], vec![9, 10, 4], vec![6, 8]];
+    for kind in 0u8..4 {
+        for ov in &sets {
+            for fb in &sets {
+                if (kind & 2 == 0 && !ov.is_empty()) || (kind & 1 == 0 && !fb.is_empty()) {
+                    continue;
+                }
+                let d = DerivedD { name: 0, kind, ov: ov.clone(), fb: fb.clone(), sov: ov.clone(), sfb: fb.clone() };
+                for k in keys {
+                    for op in [Op::Access(k), Op::Method(k), Op::AccessAssign(k)] {
+                        cx.push(Case { op, a: Opd::Derived(d.clone()), b: None });
+                    }
+                }
+            }
+        }
+    }
+    // other operations on such an object are the trait defaults: errors
+    let d = DerivedD { name: 0, kind: 3, ov: vec![], fb: vec![], sov: vec![], sfb: vec![] };
+    for op in [Op::Neg, Op::Size, Op::Call, Op::Index(true), Op::Display, Op::Type, Op::Not] {
+        cx.push(Case { op, a: Opd::Derived(d.clone()), b: None });
+    }
 }
 
 /// access chains: every placement of the key in data / `@meta` along chains of depth 0..=max_depth
@@ -2491,6 +2736,7 @@ fn main() {
     }
     gen_cmp_grid(&mut cx, thorough);
     gen_unary_grid(&mut cx);
+    gen_derived_grid(&mut cx);
     gen_access_grid(&mut cx, if thorough { 4 } else { 3 });
     cx.flush();
     // 2. seeded random cases
